@@ -1845,7 +1845,7 @@ static void vi(void)
 			}
 			cmd = term_cmd(&n);
 			if (strchr("!<>ACDIJOPRSXYacdioprsxy~", c) ||
-					(c == 'g' && strchr("uU~", k))) {
+					(c == 'g' && k > 0 && strchr("uU~", k))) {
 				if (n + 1 < sizeof(rep_cmd)) {
 					memcpy(rep_cmd, cmd, n);
 					rep_len = n;
